@@ -18,18 +18,24 @@ const (
 	faultExec
 	faultQuery
 	faultBegin
+	faultRows // the row iterator of a query fails: driver.Rows.Next returns an error once (transient read fault)
 	nFaults
 )
 
-var faultNames = []string{"none", "commit", "exec", "query", "begin"}
+var faultNames = []string{"none", "commit", "exec", "query", "begin", "rows-next"}
 
 // faultPlan is shared by every connection to one database file.
 type faultPlan struct {
 	armed atomic.Int32 // fault kind to inject at the next matching call (one shot)
+	pos   atomic.Int32 // faultRows: which Next call of the result set fails (0 = before the first row)
 	fired atomic.Bool
 }
 
-func (p *faultPlan) arm(kind int) { p.fired.Store(false); p.armed.Store(int32(kind)) }
+func (p *faultPlan) arm(kind, pos int) {
+	p.fired.Store(false)
+	p.pos.Store(int32(pos))
+	p.armed.Store(int32(kind))
+}
 func (p *faultPlan) disarm() bool { p.armed.Store(faultNone); return p.fired.Load() }
 func (p *faultPlan) hit(kind int) bool {
 	if p != nil && p.armed.CompareAndSwap(int32(kind), faultNone) {
@@ -98,7 +104,27 @@ func (c *faultConn) QueryContext(ctx context.Context, q string, args []driver.Na
 	if c.plan.hit(faultQuery) {
 		return nil, errInjected
 	}
-	return c.Conn.(driver.QueryerContext).QueryContext(ctx, q, args)
+	rows, err := c.Conn.(driver.QueryerContext).QueryContext(ctx, q, args)
+	if err == nil && c.plan != nil && c.plan.armed.Load() == faultRows {
+		return &faultRowsIter{Rows: rows, plan: c.plan}, nil
+	}
+	return rows, err
+}
+
+// faultRowsIter fails the plan's pos-th Next call once; everything before and after is the real iterator.
+type faultRowsIter struct {
+	driver.Rows
+	plan  *faultPlan
+	calls int32
+}
+
+func (r *faultRowsIter) Next(dest []driver.Value) error {
+	n := r.calls
+	r.calls++
+	if n == r.plan.pos.Load() && r.plan.hit(faultRows) {
+		return errInjected
+	}
+	return r.Rows.Next(dest)
 }
 
 func (c *faultConn) PrepareContext(ctx context.Context, q string) (driver.Stmt, error) {
